@@ -26,7 +26,6 @@ import (
 	"github.com/TarsCloud/TarsGo/tars/protocol/codec"
 	"github.com/TarsCloud/TarsGo/tars/protocol/res/basef"
 	"github.com/TarsCloud/TarsGo/tars/protocol/res/requestf"
-	"github.com/TarsCloud/TarsGo/tars/protocol/tup"
 	"github.com/TarsCloud/TarsGo/tars/util/tools"
 )
 
@@ -113,14 +112,82 @@ func c10IsKnownVer(v int16) bool {
 	return v == c10VerTars || v == c10VerTup || v == c10VerJSON
 }
 
+
+// ---------- TUP attribute maps (map<string, vector<byte>> at tag 0), written and read here with the codec primitives
+// only: the harness's requests and its reading of replies do not depend on the tree's tup package ----------
+type c10TupEntry struct {
+	K string
+	V []byte
+}
+
+func c10TupEncode(es []c10TupEntry) []byte {
+	b := codec.NewBuffer()
+	b.WriteHead(codec.MAP, 0)
+	b.WriteInt32(int32(len(es)), 0)
+	for _, e := range es {
+		b.WriteString(e.K, 0)
+		b.WriteHead(codec.SimpleList, 1)
+		b.WriteHead(codec.BYTE, 0)
+		b.WriteInt32(int32(len(e.V)), 0)
+		b.WriteBytes(e.V)
+	}
+	return b.ToBytes()
+}
+
+func c10TupDecode(buf []byte) (map[string][]byte, error) {
+	rd := codec.NewReader(buf)
+	if _, err := rd.SkipTo(codec.MAP, 0, true); err != nil {
+		return nil, err
+	}
+	var n int32
+	if err := rd.ReadInt32(&n, 0, true); err != nil {
+		return nil, err
+	}
+	if n < 0 || int(n) > len(buf) {
+		return nil, fmt.Errorf("entry count %d", n)
+	}
+	out := map[string][]byte{}
+	for i := int32(0); i < n; i++ {
+		var k string
+		if err := rd.ReadString(&k, 0, true); err != nil {
+			return nil, err
+		}
+		if _, err := rd.SkipTo(codec.SimpleList, 1, true); err != nil {
+			return nil, err
+		}
+		if _, err := rd.SkipTo(codec.BYTE, 0, true); err != nil {
+			return nil, err
+		}
+		var l int32
+		if err := rd.ReadInt32(&l, 0, true); err != nil {
+			return nil, err
+		}
+		if l < 0 || int(l) > len(buf) {
+			return nil, fmt.Errorf("value length %d", l)
+		}
+		var v []byte
+		if l > 0 {
+			if err := rd.ReadBytes(&v, l, true); err != nil {
+				return nil, err
+			}
+		}
+		out[k] = v
+	}
+	return out, nil
+}
+
+func c10Enc(f func(b *codec.Buffer)) []byte {
+	b := codec.NewBuffer()
+	f(b)
+	return b.ToBytes()
+}
+
 // ---------- request encoding (reference encoders: the repository's codec, tup, encoding/json) ----------
 func c10ArgsPayload(q *c10Req) []byte {
 	if q.Func != "act" {
 		switch q.Ver {
 		case c10VerTup:
-			b := codec.NewBuffer()
-			tup.NewUniAttribute().Encode(b)
-			return b.ToBytes()
+			return c10TupEncode(nil)
 		case c10VerJSON:
 			return []byte("{}")
 		}
@@ -128,20 +195,16 @@ func c10ArgsPayload(q *c10Req) []byte {
 	}
 	switch q.Ver {
 	case c10VerTup:
-		u := tup.NewUniAttribute()
-		put := func(name string, f func(b *codec.Buffer)) {
-			b := codec.NewBuffer()
-			f(b)
-			u.PutBuffer(name, b.ToBytes())
+		es := []c10TupEntry{
+			{"token", c10Enc(func(b *codec.Buffer) { b.WriteInt32(q.Token, 0) })},
+			{"kind", c10Enc(func(b *codec.Buffer) { b.WriteInt32(q.Kind, 0) })},
+			{"code", c10Enc(func(b *codec.Buffer) { b.WriteInt32(q.Code, 0) })},
+			{"msg", c10Enc(func(b *codec.Buffer) { b.WriteString(string(q.Msg), 0) })},
+			{"sleepMs", c10Enc(func(b *codec.Buffer) { b.WriteInt32(q.SleepMs, 0) })},
 		}
-		put("token", func(b *codec.Buffer) { b.WriteInt32(q.Token, 0) })
-		put("kind", func(b *codec.Buffer) { b.WriteInt32(q.Kind, 0) })
-		put("code", func(b *codec.Buffer) { b.WriteInt32(q.Code, 0) })
-		put("msg", func(b *codec.Buffer) { b.WriteString(string(q.Msg), 0) })
-		put("sleepMs", func(b *codec.Buffer) { b.WriteInt32(q.SleepMs, 0) })
-		b := codec.NewBuffer()
-		u.Encode(b)
-		return b.ToBytes()
+		// any entry order is a well-formed request: rotate by the token
+		k := int(q.Token) % len(es)
+		return c10TupEncode(append(append([]c10TupEntry{}, es[k:]...), es[:k]...))
 	case c10VerJSON:
 		j, _ := json.Marshal(map[string]interface{}{"token": q.Token, "kind": q.Kind, "code": q.Code, "msg": string(q.Msg), "sleepMs": q.SleepMs})
 		return j
@@ -195,19 +258,12 @@ func c10OkPayload(q *c10Req) []byte {
 		}
 		return b.ToBytes()
 	case c10VerTup:
-		u := tup.NewUniAttribute()
+		var es []c10TupEntry
 		if act {
-			b := codec.NewBuffer()
-			b.WriteInt32(q.Code, 0)
-			u.PutBuffer("", b.ToBytes())
-			u.PutBuffer("tars_ret", b.ToBytes())
-			b = codec.NewBuffer()
-			b.WriteString("e:"+string(q.Msg), 0)
-			u.PutBuffer("echo", b.ToBytes())
+			ret := c10Enc(func(b *codec.Buffer) { b.WriteInt32(q.Code, 0) })
+			es = []c10TupEntry{{"", ret}, {"tars_ret", ret}, {"echo", c10Enc(func(b *codec.Buffer) { b.WriteString("e:"+string(q.Msg), 0) })}}
 		}
-		b := codec.NewBuffer()
-		u.Encode(b)
-		return b.ToBytes()
+		return c10TupEncode(es)
 	case c10VerJSON:
 		m := map[string]interface{}{}
 		if act {
@@ -348,22 +404,28 @@ func c10PayloadOk(q *c10Req, buf []byte) string {
 			return "no out parameter in the payload"
 		}
 	case c10VerTup:
-		u := tup.NewUniAttribute()
-		if err := u.Decode(codec.NewReader(buf)); err != nil {
+		m, err := c10TupDecode(buf)
+		if err != nil {
 			return "payload is not a TUP attribute map"
 		}
-		var b []byte
-		if err := u.GetBuffer("tars_ret", &b); err != nil {
+		b, ok := m["tars_ret"]
+		if !ok {
 			return "no tars_ret in the TUP payload"
 		}
 		if err := codec.NewReader(b).ReadInt32(&ret, 0, true); err != nil {
 			return "tars_ret unreadable"
 		}
-		if err := u.GetBuffer("echo", &b); err != nil {
+		if b0, ok := m[""]; !ok || !bytes.Equal(b0, b) {
+			return "the TUP payload's entry \"\" (return value under the empty name) is missing or differs from tars_ret"
+		}
+		if b, ok = m["echo"]; !ok {
 			return "no echo in the TUP payload"
 		}
 		if err := codec.NewReader(b).ReadString(&echo, 0, true); err != nil {
 			return "echo unreadable"
+		}
+		if len(m) != 3 {
+			return fmt.Sprintf("%d entries in the TUP payload, expected 3", len(m))
 		}
 	case c10VerJSON:
 		var m struct {
